@@ -7,6 +7,7 @@
   * whether the two repairs proposed in fixes/ are present in the working tree (the model mirrors either version):
       eraseKeepsCount  the erase loop counts down a variable other than the one passed to move_rel afterwards
       scrollGuard      scrollrect refuses rectangles whose DECSTBM / DECSLRM margins would be degenerate
+      printnGuard      tickit_term_printn (src/term.c) returns at once for len == 0
 """
 import re
 
@@ -99,10 +100,16 @@ def run(ctx):
         info["untranslatable"].append("xterm:erase-loop-shape")
     sc = fn_body("scrollrect") or ""
     guard = bool(re.search(r"if\s*\(\s*rect->lines\s*<\s*2\s*\|\|\s*\(\s*\(\s*rect->left\s*>\s*0\s*\|\|\s*right\s*<\s*term_cols\s*\)\s*&&\s*rect->cols\s*<\s*2\s*\)\s*\)\s*return\s+false\s*;", sc))
+    term = ctx.strip_c_comments(ctx.src("src/term.c"))
+    mp = re.search(r"void\s+tickit_term_printn\s*\([^)]*\)\s*\{(.*?)\n\}", term, re.S)
+    if not mp:
+        info["untranslatable"].append("term:tickit_term_printn")
+    pguard = bool(mp and re.search(r"if\s*\(\s*(!\s*len|len\s*==\s*0)\s*\)\s*return\s*;", mp.group(1)))
+    body += f"def printnGuard : Bool := {'true' if pguard else 'false'}\n"
     body += f"def eraseChunk : Nat := {chunk}\n"
     body += f"def eraseKeepsCount : Bool := {'true' if keeps else 'false'}\n"
     body += f"def scrollGuard : Bool := {'true' if guard else 'false'}\n"
     body += "end Tickit.Gen.XTermFacts\n"
     ctx.write("XTermFacts", body)
-    facts.update({"eraseChunk": chunk, "eraseKeepsCount": keeps, "scrollGuard": guard})
+    facts.update({"eraseChunk": chunk, "eraseKeepsCount": keeps, "scrollGuard": guard, "printnGuard": pguard})
     info["xterm"] = facts
